@@ -21,7 +21,12 @@ SENTINEL = ''.join('SENTINEL-%d %s\n' % (i, 'x' * (i % 7)) for i in range(12)) +
 SYS = re.compile(r'^(?:\[pid +\d+\] |\d+ +)?(read|write)\((\d+), (.*)$')
 
 
-def _gen(rng):
+def _gen(rng, i=None):
+    if i == 0:
+        # a megabyte of program text: 150 000 commands and a 흑 with 400 000 dots behind a command that reads input
+        # first (so level 2 hands over at once).  Costs ~0.2 s per level on the repaired tree; an optimiser whose work
+        # is (a count in the program) x (number of commands) instead of the text size needs minutes.
+        return 'huge_text', 'RAW:' + '흑 항. ' + '형 ' * 150000 + '흑' + '.' * 400000
     k = rng.random()
     if k < 0.35:
         # select stack 0/1/2 early, then pop: directly, multi-operand, via 흑, inside areas
@@ -75,13 +80,20 @@ def _case(i):
     tier, seed, rundir = _RUN['tier'], _RUN['seed'], _RUN['dir']
     rng = C.rng_for(seed, PID, tier, i)
     res = {'i': i, 'items': [], 'hist': {}, 'status': 'ok'}
-    name, prog = _gen(rng)
-    text = P.render_text(rng, prog)
+    name, prog = _gen(rng, i)
+    if isinstance(prog, str):
+        text = prog[4:]
+        from . import refparse
+        prog = refparse.commands_only(refparse.parse(text))
+    else:
+        text = P.render_text(rng, prog)
     if text is None:
         res['status'] = 'reject'
         return res
     res['src'] = name
     n = len(prog)
+    if name == 'huge_text':
+        return _huge(res, text, name)
     # model of the speculation: does it stay small? where does it stop?
     lim = P.Limits(steps=101 * n * n + 200, bits=600)
     k, cause = P.prefix_model(prog, lim)
@@ -164,6 +176,36 @@ def _case(i):
                 os.unlink(f)
             except OSError:
                 pass
+
+
+def _huge(res, text, name):
+    """No strace here (the interest is the amount of work): marker, sentinel and CPU time only."""
+    rundir = _RUN['dir']
+    path = P.write_program(rundir, 'huge%d.hyeong' % os.getpid(), text)
+    res['key'] = C.sha(text)
+    res['hist']['huge_text_programs'] = 1
+    try:
+        for level in (0, 1, 2):
+            p = C.run_proc([C.HV_OPT, path, str(level)], SENTINEL.encode(), cpu=30, wall=300)
+            if p.wall_timeout:
+                res['items'].append(('i', 'wall-clock watchdog on the huge program, level %d' % level))
+                continue
+            out = p.outs()
+            sig = 'HUGE-L%d' % level
+            if p.cpu_killed:
+                res['items'].append(('v', sig, 'optimising a 1 MB program did not finish within 30 s of CPU time (the repaired tree needs ~0.2 s)',
+                                     {'program': '흑 항. + 150000 x 형 + 흑 with 400000 dots', 'level': level}))
+            elif 'OPT-DONE' not in out or not out.endswith(SENTINEL) or p.rc != 0:
+                res['items'].append(('v', sig, 'optimising the huge program performed an effect', {'level': level, 'rc': p.rc, 'stdout_head': C.clip(out, 200)}))
+            else:
+                res['hist']['clean_runs'] = res['hist'].get('clean_runs', 0) + 1
+        res['sample'] = {'program': 'huge_text (1 MB)', 'source': name, 'model_stop': [1, 'io']}
+        return res
+    finally:
+        try:
+            os.unlink(path)
+        except OSError:
+            pass
 
 
 def main(tier, seed):
